@@ -147,3 +147,45 @@ def _nwar_ensures(a, r):
 new_with_atts_removed = Contract(
     M + "FmtStr.new_with_atts_removed", "C14", ["self", "*attributes"], kind="method",
     shapes=_nwar_shapes(), ensures=_nwar_ensures, result=FmtT())
+
+
+# ------------------------------------------------------------------ shared_atts                                   C14
+#   "shared_atts only ever reports a value that every character has": for every reported key k and every run with at
+#   least one character, that run's attributes hold k with the reported value.  (Which run the candidates are taken
+#   from does not matter for this clause, so nothing is assumed about it.)
+def _reported_on_every_nonempty_run(rep, xs):
+    """closure over a run index: every key present in `rep` is held, with the same value, by run i if it has characters"""
+    def clause(i):
+        run = xs[i]
+        return Implies(And(i >= 0, i < length(xs), length(T.ChunkS.s(run)) > 0),
+                       And(*[Implies(FIELD[k](rep) != 0, FIELD[k](T.ChunkS.atts(run)) == FIELD[k](rep)) for k in ATT_KEYS]))
+    return clause
+
+
+def _shared_ensures(a, r):
+    if z3.is_expr(a.self):
+        return [("post.reported_value_on_every_nonempty_run", _reported_on_every_nonempty_run(_as_atts(r), _runs(a.self)))]
+    bad = [(k, v, ch) for k, v in dict(r).items() for ch in a.self.chunks if len(ch.s) > 0 and not (k in ch.atts and ch.atts[k] == v)]
+    return [("post.reported_value_on_every_nonempty_run", not bad)]
+
+
+_shared_loop = Loop(inv=lambda L: [_reported_on_every_nonempty_run(_as_atts(L.atts), _runs(L.self))])
+_shared_loop.types = {"atts": "atts"}
+
+shared_atts = Contract(
+    M + "FmtStr.shared_atts", "C14", ["self"], kind="property",
+    shapes=[Shape("any", dict(self=FmtT()))],
+    ensures=_shared_ensures,
+    loops={0: _shared_loop})
+
+
+def _small_fmtstrs():
+    from curtsies.formatstring import FmtStr, Chunk
+    pool = [{}, {"fg": 31}, {"fg": 31, "bold": True}, {"fg": 32, "bold": True}, {"bold": False, "fg": 31}]
+    for n in range(0, 4):
+        for lens in itertools.product((0, 1, 2), repeat=n):
+            for ats in itertools.product(range(len(pool)), repeat=n):
+                yield dict(self=FmtStr(*[Chunk("abcdef"[k] * l, pool[x]) for k, (l, x) in enumerate(zip(lens, ats))]))
+
+
+shared_atts.enumerate_small = _small_fmtstrs
